@@ -6,6 +6,7 @@ THEOREMS = ["C18_merge_blocks", "C18_block_content", "C18_params_preserved", "C1
             "C18_version_mismatch_not_registered", "C18_itemcount", "C18_merged_file", "C18_merged_file_hypotheses_decidable", "C18_merged_file_nonvacuous", "C18_nonvacuous"]
 TOOLS = True
 
+EXTRA_PROPERTY_FILES = ("Properties_tools",)   # main() of cdns-merge / cdns-itemcount and the file reader's functions as they are now (translator/tools.py) against what the models were written after
 def make_files(ctx, sch, rng, n):
     """valid C-DNS files produced by the real exporter (through the driver), with their histories"""
     cases = []
